@@ -79,6 +79,16 @@ Theorem C08_static_order_is_topological :
 Proof. exact build_order_sound. Qed.
 Print Assumptions C08_static_order_is_topological.
 
+(* and conversely: the sort refuses a model only when its definitions cannot be ranked, i.e. only when
+   they are cyclic (a cycle is the one fault the sort is responsible for; no well-formed model is lost) *)
+Theorem C08_cycle_error_iff_cyclic :
+  forall o ru,
+    (exists ord, sorted_names o ru = Some ord)
+    <-> exists rank : string -> nat,
+          forall n d, In n (all_assign_names o) -> In d (deps_of o n) -> rank d < rank n.
+Proof. exact sorted_names_iff_ranked. Qed.
+Print Assumptions C08_cycle_error_iff_cyclic.
+
 (* the mirror rejects each kind of fault (computed): duplicate with the same dependency set,
    duplicate derivative, kind clash, missing derivative, orphan derivative, undefined symbol; and a
    cycle is detected by the topological sort at generation *)
